@@ -338,7 +338,15 @@ fn struct_init_block_inner(
                 }
 
                 let fragment = match attrs.child(&ctx.struct_attr.ty) {
-                    Some(child_attr) => render_child_fragment(&child_attr.child_path, members, ctx, field_ctx.map(|x|x.2), type_hint, || render_struct_line(f, ctx, type_hint, idx, None)),
+                    Some(child_attr) => {
+                        // a 'from' conversion reads the member straight from its nested struct: the shape that matters is the one given for that nested struct in #[child_parents(...)]
+                        let line_hint = if ctx.kind.is_from() {
+                            ctx.input.get_attrs().child_parents_attr(&ctx.struct_attr.ty)
+                                .and_then(|x| x.child_parents.iter().find(|child_data| child_data.check_match(child_attr.get_child_path_str(None))))
+                                .map_or(type_hint, |child_data| child_data.type_hint)
+                        } else { type_hint };
+                        render_child_fragment(&child_attr.child_path, members, ctx, field_ctx.map(|x|x.2), type_hint, || render_struct_line(f, ctx, line_hint, idx, None))
+                    },
                     None => {
                         members.next();
                         render_struct_line(f, ctx, type_hint, idx, None)
